@@ -99,6 +99,7 @@ func templates() []tmpl {
 	add("pay-A-B", func(m *ledger.Model) *coin.Transaction { return pay(m, idA, idB, 0, nil, 1, 2, nil) })
 	add("pay-A-C", func(m *ledger.Model) *coin.Transaction { return pay(m, idA, idC, 0, nil, 1, 3, nil) })
 	add("pay-B-A", func(m *ledger.Model) *coin.Transaction { return pay(m, idB, idA, 0, nil, 1, 2, nil) })
+	add("pay-A3-B", func(m *ledger.Model) *coin.Transaction { return pay(m, idA, idB, 2, nil, 1, 2, nil) })
 	add("pay-A2-C", func(m *ledger.Model) *coin.Transaction { return pay(m, idA, idC, 1, nil, 1, 2, nil) })
 	add("pay-G2-A", func(m *ledger.Model) *coin.Transaction { return pay(m, idG, idA, 1, nil, 1, 2, nil) })
 	// same fee-per-kB as pay-G-A but different destination: exercises the hash tie-break among conflicting siblings
